@@ -696,7 +696,7 @@ func findAndHandleCyclicalRelationships(b *ModelBuild) {
 
 			// find this struct type amongst the generated structs
 			for jj, structB := range b.Models {
-				if structB.Name != fieldAStructName {
+				if templates.ToGo(structB.Name) != fieldAStructName {
 					continue
 				}
 
@@ -709,7 +709,7 @@ func findAndHandleCyclicalRelationships(b *ModelBuild) {
 
 					fieldBStructNameParts := strings.Split(fieldB.Type.String(), ".")
 					fieldBStructName := fieldBStructNameParts[len(fieldBStructNameParts)-1]
-					if fieldBStructName == structA.Name {
+					if fieldBStructName == templates.ToGo(structA.Name) {
 						cyclicalReferenceFound = true
 						fieldB.Type = types.NewPointer(fieldB.Type)
 						// keep looping in case this struct has additional fields of this type
